@@ -74,7 +74,7 @@ def daily_cases(draw, klass=None):
         c["entry"] = "frame"
         lengths, tot = [], 0
         while tot < c["n"] - 26:
-            ln = draw(st.integers(28, 33))
+            ln = draw(st.one_of(st.integers(28, 33), st.integers(28, 33), st.sampled_from([25, 26, 34, 35])))  # 25 and 35 days are still on-cycle
             lengths.append(ln)
             tot += ln
         c["lengths"] = lengths
@@ -294,7 +294,7 @@ def judge_daily(c, rec):
             rec.violation("%s/missing-dq/%s" % (K, name.split(".")[-1]), c, "criterion %s is violated but not reported (reported: %s)" % (name, sorted(x.split('.')[-1] for x in got)))
         for name in sorted(extra):
             if klass == "billing" and name.endswith("offcycle_reads_in_billing_monthly_data") and not c.get("offcycle"):
-                rec.violation("%s/offcycle-dq-without-offcycle-read" % K, c, "off-cycle disqualification although every period has 28-33 days")
+                rec.violation("%s/offcycle-dq-without-offcycle-read" % K, c, "off-cycle disqualification although every period has 25-35 days")
                 continue
             rec.violation("%s/unexpected-dq/%s" % (K, name.split(".")[-1]), c, "%s reported although the data satisfies it (expected %s)" % (name, sorted(x.split('.')[-1] for x in must)))
     # warnings
